@@ -729,3 +729,59 @@ pub fn mutations(case: &Case, parts: &Parts, other: Option<&Parts>, density: usi
     }
     v
 }
+
+
+// ------------------------------------------------------------------------------------------------
+// The reference relation evaluated at the challenges the library itself drew
+// ------------------------------------------------------------------------------------------------
+
+/// Challenge scalars drawn during a library call, grouped by transcript in order of first use (verify_batch draws
+/// member i's challenges on the i-th such transcript)
+pub fn observed_challenges(events: &[merlin::probe::Event]) -> Vec<Vec<Scalar>> {
+    let mut ids: Vec<u64> = vec![];
+    let mut groups: Vec<Vec<Scalar>> = vec![];
+    for e in events {
+        if e.kind == merlin::probe::Kind::Challenge && e.data.len() == 64 {
+            let i = match ids.iter().position(|x| *x == e.id) {
+                Some(i) => i,
+                None => {
+                    ids.push(e.id);
+                    groups.push(vec![]);
+                    ids.len() - 1
+                },
+            };
+            groups[i].push(wide(&e.data));
+        }
+    }
+    groups
+}
+
+pub fn as_challenges(v: &[Scalar], rounds: usize) -> Option<refbp::Challenges> {
+    if v.len() != 3 + rounds {
+        return None;
+    }
+    Some(refbp::Challenges { y: v[0], z: v[1], rounds: v[2..2 + rounds].to_vec(), e: v[2 + rounds] })
+}
+
+/// Run the library verifier on one triple under the merlin probe and evaluate the reference relation *at the
+/// challenges the library drew* (so that the comparison is about the relation, not about the transcript layout,
+/// which is C19's business). Returns (library verdict or panic message, reference verdict).
+pub fn verdict_pair(t: &Transcript, st: &Stmt, proof: &Proof, rst: &RefStatement<P>, parts: &Parts, action: VerifyAction) -> (Result<bool, String>, bool) {
+    merlin::probe::arm();
+    let lv = no_panic(|| verify_one(t, st, proof, action).is_ok());
+    let ev = merlin::probe::take();
+    let rv = match parts.to_ref() {
+        None => false,
+        Some(rp) => {
+            if refbp::ref_shape(rst, &rp) != refbp::Shape::Ok {
+                false
+            } else {
+                let groups = observed_challenges(&ev);
+                let ch = groups.first().and_then(|g| as_challenges(g, rp.l.len())).unwrap_or_else(|| refbp::ref_challenges(t, rst, &rp));
+                let nonzero = ch.y != Scalar::ZERO && ch.z != Scalar::ZERO && ch.e != Scalar::ZERO && ch.rounds.iter().all(|c| *c != Scalar::ZERO);
+                nonzero && refbp::ref_residual_with(rst, &rp, &ch, 2).is_zero()
+            }
+        },
+    };
+    (lv, rv)
+}
